@@ -248,6 +248,11 @@ func c17Run(r *Run, h int) {
 					if lr.Intn(2) == 0 {
 						where[0], where[1] = where[1], where[0]
 					}
+					if lr.Intn(2) == 0 {
+						// ... and by its unique name first: the lookup goes through the index and, when the race
+						// is lost, the guard on the value keeps nothing of what the index gave
+						where = append([]WCondJ{{Col: "name", Fn: "==", Val: VA(AS(ctr))}}, where...)
+					}
 					ops = []OperationJ{{Op: "update", Table: "Ctr", Where: where, Row: Row{"n": VA(AI(cur + 1))}}, logOp}
 				case "claim":
 					nm := names[lr.Intn(len(names))]
